@@ -451,17 +451,20 @@ def insLegacy (x : Addr × Nat × Nat) : List (Addr × Nat × Nat) → List (Add
     else if x.1 = y.1 ∧ x.2.1 = y.2.1 then x :: ys
     else y :: insLegacy x ys
 
+/-- one legacy entry becomes a v2 entry (overwriting any existing one for that user and batch) -/
+def migrateOne (hh : HubSt) (x : Addr × Nat × Nat) : HubSt :=
+  { hh with waitSet := upd hh.waitSet x.1 (upd (hh.waitSet x.1) x.2.1 true),
+            waitB := upd hh.waitB x.1 (upd (hh.waitB x.1) x.2.1 x.2.2),
+            waitS := upd hh.waitS x.1 (upd (hh.waitS x.1) x.2.1 0),
+            waitKeys := addKey hh.waitKeys (x.1, x.2.1) }
+
 /-- `migrate_unbond_wait_lists` -/
 def migrate (h : HubSt) (limit : Option Nat) : HubSt :=
   let n := limit.getD 1000
   let moved := h.legacy.take n
   if moved = [] then h
   else
-    let h1 := moved.foldl (fun hh x =>
-      { hh with waitSet := upd hh.waitSet x.1 (upd (hh.waitSet x.1) x.2.1 true),
-                waitB := upd hh.waitB x.1 (upd (hh.waitB x.1) x.2.1 x.2.2),
-                waitS := upd hh.waitS x.1 (upd (hh.waitS x.1) x.2.1 0),
-                waitKeys := addKey hh.waitKeys (x.1, x.2.1) }) h
+    let h1 := moved.foldl migrateOne h
     let rest := h.legacy.drop n
     { h1 with legacy := rest, paused := if rest = [] then some false else h1.paused }
 
